@@ -5,7 +5,7 @@
       column-wise re-encode                writer_reencode.go reencodableRowGroup
       packed segments                      writer_copy.go  splittableCopyableSegments
                                            writer_reencode.go writeSegmentsPacked
-      row path                             writer.go:589-596 (Rows() + CopyRows)
+      row path                             writer.go:589-603 (Rows() + CopyRows)
 
     Every condition the Go code reads is one field of a record of source /
     destination attributes ([col] per column, [rg] per row group, [writer],
